@@ -217,10 +217,16 @@ def prepare(case):
             continue
         if t['outcome'] == 'saveerr' and t['status'] == 'utd' and not case.get('always'):
             t['outcome'] = 'ok'
-        # base-model corner (reported, Model/Run.lean `deliver`): a calc task whose save_success fails still has
-        # task.values and delivers them; the model delivers only from executed-and-saved / up-to-date tasks
-        if t['outcome'] in ('saveerr', 'saveerr-values') and t.get('calc_res') is not None:
+        # (M1 now models the delivery of a started-then-failed calc task: calcResFail, computed by runlib.expand for
+        # outcome 'saveerr' and for 'calc_first' tasks; only the open-finding shape stays without calc results)
+        if t['outcome'] == 'saveerr-values' and t.get('calc_res') is not None:
             t['calc_res'] = None
+        # a task whose failure comes AFTER its first action (failing command as last action, or action 2 of 3) has
+        # returned its values by then: doit delivers them to the tasks that have it as calc_dep
+        if t['outcome'] in ('failed', 'error') and (t.get('multi') or is_cmd_how(t.get('how'))):
+            t['calc_first'] = True
+        elif 'calc_first' in t:
+            del t['calc_first']
         if t['outcome'] == 'saveerr-values':
             if t['status'] == 'utd' and not case.get('always'):
                 t['outcome'] = 'ok'
@@ -394,9 +400,9 @@ def _make_actions(rec, cell, n, t):
         val = {'v': n}
         if outcome == 'saveerr-values':
             val['unsavable'] = BADVALS[t.get('badval', 'set')]
-        if not later_fails and not multi:
-            # (a task whose LATER action fails keeps the values of its earlier actions and would deliver them as
-            # calc results -- the reported `deliver` corner of the base model: nothing to deliver then)
+        if later_fails or not multi:
+            # (a task whose LATER action fails keeps the values of its earlier actions and delivers them as calc results:
+            # model calcResFail)
             val.update(res)
         return val
     first.__name__ = 'act_%d' % n
@@ -1066,6 +1072,8 @@ def judge(case, obs, ans, st, shrink_left):
 
 def count_case(st, case, obs):
     runlib.count_case(st, case, obs)
+    if any(x for x in (case['model'].get('calcResFail') or [])):
+        st.count('fail_delivery_case(theorems under [NoFailDeliver] do not apply)')
     for t in case['tasks']:
         if t.get('multi'):
             st.count('multi_action_task')
